@@ -66,7 +66,8 @@ package transport
 //@   ensures calls(DispatchOperation) <= 1
 //@   ensures calls(DispatchOperation) + calls(DispatchError) == 1
 //@   ensures calls(Put) == 1
-//@   replay transportNullBody.go.tmpl
+//@   replay transportNullBody.go.tmpl for CreateOperationContext
+//@   replay httpContentType.go.tmpl for writeHeaders
 
 // ---------------------------------------------------------------- more trusted helpers
 //@ trusted getRequestBody(r) (s, err)
@@ -123,7 +124,8 @@ package transport
 //@   callsite writeJsonError: requires calls(writeHeaders) >= 1
 //@   callsite writeJsonErrorf: requires calls(writeHeaders) >= 1
 //@   callsite writeJsonGraphqlError: requires calls(writeHeaders) >= 1
-//@   replay deferLeak.go.tmpl
+//@   replay deferLeak.go.tmpl for :ensures:#1@
+//@   replay httpContentType.go.tmpl for writeHeaders
 //@   ghost drained = false
 //@   at `responses(ctx)` ghost drained = callres0 == nil
 //@   ensures @C05 calls(DispatchOperation) >= 1 ==> drained
@@ -145,7 +147,8 @@ package transport
 //@   callsite writeJsonError: requires calls(writeHeaders) >= 1
 //@   callsite writeJsonErrorf: requires calls(writeHeaders) >= 1
 //@   callsite writeJsonGraphqlError: requires calls(writeHeaders) >= 1
-//@   replay deferLeak.go.tmpl
+//@   replay deferLeak.go.tmpl for :ensures:#1@
+//@   replay httpContentType.go.tmpl for writeHeaders
 //@   ghost drained = false
 //@   at `responses(ctx)` ghost drained = callres0 == nil
 //@   ensures @C05 calls(DispatchOperation) >= 1 ==> drained
@@ -173,7 +176,8 @@ package transport
 //@   callsite writeJsonError: requires calls(writeHeaders) >= 1
 //@   callsite writeJsonErrorf: requires calls(writeHeaders) >= 1
 //@   callsite writeJsonGraphqlError: requires calls(writeHeaders) >= 1
-//@   replay deferLeak.go.tmpl
+//@   replay deferLeak.go.tmpl for :ensures:#1@
+//@   replay httpContentType.go.tmpl for writeHeaders
 //@   ghost drained = false
 //@   at `responses(ctx)` ghost drained = callres0 == nil
 //@   ensures @C05 calls(DispatchOperation) >= 1 ==> drained
@@ -230,7 +234,8 @@ package transport
 //@   callsite DispatchOperation: requires opErr == nil
 //@   callsite DispatchError: requires calls(DispatchOperation) == 0
 //@   ensures calls(DispatchOperation) <= 1
-//@   replay transportNullBody.go.tmpl
+//@   replay transportNullBody.go.tmpl for CreateOperationContext
+//@   replay httpContentType.go.tmpl for writeHeaders
 
 // ---------------------------------------------------------------- multipart/mixed
 //@ trusted (net/http.Flusher).Flush()
@@ -252,7 +257,8 @@ package transport
 //@   callsite DispatchOperation: requires opErr == nil
 //@   ensures calls(DispatchOperation) >= 1 ==> calls(WriteHeader) == 0
 //@   ensures calls(DispatchOperation) <= 1
-//@   replay transportNullBody.go.tmpl
+//@   replay transportNullBody.go.tmpl for CreateOperationContext
+//@   replay httpContentType.go.tmpl for writeHeaders
 
 // ---------------------------------------------------------------- multipart/form-data uploads
 //@ trusted (MultipartForm).maxUploadSize() (n)
@@ -312,6 +318,7 @@ package transport
 // multipart reader captures r.Body); every temporary file that was created has a deferred removal registered
 // before anything else can fail (ghost counters created/scheduled); gate as for the other transports.
 //@ func (MultipartForm).Do [C10,C03,C09,C05]
+//@   replay httpContentType.go.tmpl for writeHeaders
 // C09: no body before the response headers (negotiated Content-Type, configured headers) are in place
 //@   callsite writeJson: requires calls(writeHeaders) >= 1
 //@   callsite writeJsonError: requires calls(writeHeaders) >= 1
@@ -432,6 +439,7 @@ package transport
 // Content-Type (any case), or application/json is set
 //@ func writeHeaders [C09]
 //@   requires w != nil
+//@   replay httpContentType.go.tmpl
 //@   ghost seenCT = false
 //@   at `strings.EqualFold(key, "Content-Type")` ghost seenCT = seenCT || callres0
 //@   loop 1: invariant hasContentType <==> seenCT
@@ -478,7 +486,7 @@ package transport
 // a refused handshake always ends in a protocol close (which also fires the close callback): the client is never
 // left with a silent, open socket
 //@   ensures !res0 ==> calls(close) >= 1 && !acked
-//@   replay wsInitPayload.go.tmpl
+//@   replay wsInitPayload.go.tmpl for :ensures:#3@
 //@ trusted (*wsConnection).run()
 //@ trusted (*github.com/gorilla/websocket.Upgrader).Upgrade(w, r, h) (c, err)
 //@ trusted (*github.com/gorilla/websocket.Conn).Subprotocol() (s)
